@@ -613,6 +613,20 @@ PROPS['C12']['obligations'] += [
 PROPS['C12']['outside'] = 'more than 4 trial ids in the one-step obligations; histories longer than 3 suggests / 4 actions'
 
 
+PROPS['C10']['encoded'] += ['common.Metadata.ns/abs_ns/__setitem__/__delitem__/update/attach/all_items']
+PROPS['C10']['obligations'] += [
+    O('C10.views4_s%d' % k, 'harness.c10_views', 'view_history4', 400, None,
+      'Metadata handles (root, two views held from the start, a second object that gets attached) always show the last-written '
+      'value of every (namespace, key): every sequence of 4 operations from a menu of 12 (writes through held and fresh '
+      'views, delete, update, attach at root / below) against a dictionary model', '12^4 sequences, slice %d/4' % k,
+      env={'VERIF_SLICE': str(k)}, no_validate=True)
+    for k in range(4)
+] + [
+    O('C10.views5_o%d' % k, 'harness.c10_views', 'view_history', None, 1500,
+      'same for sequences of 5 operations, first operation = menu entry %d' % k, '12^4 sequences per slice',
+      env={'VERIF_SLICE': str(k)}, no_validate=True)
+    for k in range(12)
+]
 PROPS['C10']['encoded'] += ['VizierServicer.SuggestTrials metadata path', 'PythiaServicer.Suggest', 'MetadataDeltaConverter']
 PROPS['C10']['obligations'] += [
     O('C10.algo_delta_ram', 'harness.c10_algo_md', 'algo_delta_ram', 300, 900,
